@@ -80,7 +80,30 @@ impl From<bool> for PropertyValue {
     }
 }
 
+/// Lists and maps may be nested at most this deep in a persisted property value.
+///
+/// `PropertyValue::decode` recurses once per level, so the depth of untrusted input has to
+/// be bounded; writers refuse deeper values (`PropertyValue::is_nested_too_deeply`).
+pub const MAX_NESTING_DEPTH: usize = 128;
+
 impl PropertyValue {
+    /// True if lists/maps are nested deeper than [`MAX_NESTING_DEPTH`]; such a value
+    /// cannot be decoded again and must not be persisted.
+    pub fn is_nested_too_deeply(&self) -> bool {
+        fn too_deep(v: &PropertyValue, levels_left: usize) -> bool {
+            match v {
+                PropertyValue::List(l) => {
+                    levels_left == 0 || l.iter().any(|x| too_deep(x, levels_left - 1))
+                }
+                PropertyValue::Map(m) => {
+                    levels_left == 0 || m.values().any(|x| too_deep(x, levels_left - 1))
+                }
+                _ => false,
+            }
+        }
+        too_deep(self, MAX_NESTING_DEPTH)
+    }
+
     /// Encode property value to bytes for WAL/property-store persistence.
     pub fn encode(&self) -> Vec<u8> {
         match self {
@@ -147,15 +170,19 @@ impl PropertyValue {
 
     /// Decode property value from bytes.
     pub fn decode(bytes: &[u8]) -> Result<Self, DecodeError> {
-        let (value, _) = Self::decode_recursive(bytes)?;
+        let (value, _) = Self::decode_recursive(bytes, 0)?;
         Ok(value)
     }
 
-    fn decode_recursive(bytes: &[u8]) -> Result<(Self, usize), DecodeError> {
+    /// `depth` is the number of lists/maps enclosing the value that starts at `bytes[0]`.
+    fn decode_recursive(bytes: &[u8], depth: usize) -> Result<(Self, usize), DecodeError> {
         if bytes.is_empty() {
             return Err(DecodeError::Empty);
         }
         let ty = bytes[0];
+        if (ty == 7 || ty == 8) && depth >= MAX_NESTING_DEPTH {
+            return Err(DecodeError::NestingTooDeep);
+        }
         match ty {
             0 => Ok((PropertyValue::Null, 1)),
             1 => {
@@ -221,7 +248,7 @@ impl PropertyValue {
                 // reserve more slots than there are bytes left.
                 let mut items = Vec::with_capacity(count.min(bytes.len() - pos));
                 for _ in 0..count {
-                    let (item, consumed) = Self::decode_recursive(&bytes[pos..])?;
+                    let (item, consumed) = Self::decode_recursive(&bytes[pos..], depth + 1)?;
                     items.push(item);
                     pos += consumed;
                 }
@@ -252,7 +279,7 @@ impl PropertyValue {
                     let key = String::from_utf8(bytes[pos..pos + k_len].to_vec())
                         .map_err(|_| DecodeError::InvalidUtf8)?;
                     pos += k_len;
-                    let (val, consumed) = Self::decode_recursive(&bytes[pos..])?;
+                    let (val, consumed) = Self::decode_recursive(&bytes[pos..], depth + 1)?;
                     map.insert(key, val);
                     pos += consumed;
                 }
@@ -277,6 +304,7 @@ pub enum DecodeError {
     InvalidLength,
     InvalidUtf8,
     UnknownType(u8),
+    NestingTooDeep,
 }
 
 impl std::fmt::Display for DecodeError {
@@ -286,6 +314,10 @@ impl std::fmt::Display for DecodeError {
             DecodeError::InvalidLength => write!(f, "invalid property value length"),
             DecodeError::InvalidUtf8 => write!(f, "invalid UTF-8 in string property"),
             DecodeError::UnknownType(ty) => write!(f, "unknown property value type: {ty}"),
+            DecodeError::NestingTooDeep => write!(
+                f,
+                "property value nested deeper than {MAX_NESTING_DEPTH} levels"
+            ),
         }
     }
 }
